@@ -102,7 +102,10 @@ pub fn cli(args: &[String]) -> i32 {
     let b = Batch { seed, engine: ENGINE_ID, runs: runs + sweeps, workers };
     let locals: Vec<Local> = batch::run_batch(&b, |k, rs, l: &mut Local| {
         if k < runs {
-            let sc = stream::generate(rs);
+            let sc = match std::panic::catch_unwind(|| stream::generate(rs)) {
+                Ok(sc) => sc,
+                Err(p) => harness_error(&format!("the E1 scenario generator panicked for run seed {rs}: {}", crate::panic_message(&p))),
+            };
             account(l, k, rs, &sc, false)
         } else {
             // sweep: a sampled (automaton, content) with every truncation point, every method,
